@@ -4,6 +4,7 @@ import (
 	"fmt"
 	"go/token"
 	"go/types"
+	"sort"
 	"strings"
 
 	"gmslverif/fw"
@@ -184,6 +185,10 @@ func checkC02(c *fw.Ctx) {
 	// 4. SignJSON merge
 	checkSignMerge(c, sign)
 	checkCarriedSignatures(c, sign)
+
+	// 7. the exclusion applies to the top level of the object only
+	checkTopLevelOnly(c, "7 top-level", "SignJSON", sign, want)
+	checkTopLevelOnly(c, "7 top-level", "VerifyJSON", verify, want)
 
 	// 4b. the canonical form both sides sign over orders members by their decoded names on every
 	// path (shared with C01.4/5)
@@ -386,4 +391,34 @@ func checkCarriedSignatures(c *fw.Ctx, sign *ssa.Function) {
 	default:
 		c.Ok(rule, construct, c.P.Pos(sign.Pos()), fmt.Sprintf("%d copy site(s), unconditional", n))
 	}
+}
+
+// checkTopLevelOnly: the names of the members that are left out of a signed / hashed projection
+// are applied to the top level of the document only. Positive evidence of the contrary: the
+// names (as constants, a list, or a record holding the list) travel from the routine into a
+// parameter, receiver or captured variable of a routine that calls itself on nested values - a
+// member called "unsigned" or "signatures" inside `content` is then left out as well, so it is
+// not covered by the signature and can be altered without invalidating it.
+func checkTopLevelOnly(c *fw.Ctx, rule, name string, root *ssa.Function, want map[string]bool) {
+	construct := name + ": the excluded member names are applied to the top level only"
+	t := fw.NewConstTaint(root, want)
+	c.Count("functions reached by the excluded-name taint", len(t.Funcs))
+	var rec []*ssa.Function
+	for f := range t.Funcs {
+		if len(t.TaintedInputs(f)) > 0 && t.Recursive(f) {
+			rec = append(rec, f)
+		}
+	}
+	if len(rec) == 0 {
+		c.Ok(rule, construct, c.P.Pos(root.Pos()), fmt.Sprintf("%d function(s) reached, none of the recursive ones receives the names", len(t.Funcs)))
+		return
+	}
+	sort.Slice(rec, func(i, j int) bool { return fw.FuncName(rec[i]) < fw.FuncName(rec[j]) })
+	f := rec[0]
+	if t.HasCounterParam(f) {
+		c.Undecided(rule, construct, fw.FuncName(f)+" receives the names and calls itself, but also takes a level counter")
+		return
+	}
+	in := t.TaintedInputs(f)
+	c.Fail(rule, construct, c.P.Pos(f.Pos()), fmt.Sprintf("the member names excluded by %s reach %s (through %s), which applies itself to nested values: members of that name are left out at every depth, not only at the top level, so nested data under such a name is not covered by the signature or hash", name, fw.FuncName(f), in[0].Name()))
 }
